@@ -767,6 +767,110 @@ def parse_build_rs(path):
 NHIST = dict(quick=300, thorough=4000)  # histories per struct and real width
 
 
+def simulated_targets(ctx, outdir, viols, stats, brs_path):
+    """The headers may consult macros that the COMPILER predefines for its target (architecture, FPU, ABI) - none of which a run on
+    this host ever varies. For every such macro that the public headers test in a preprocessor conditional and that this host's gcc
+    does not define, the layout probe below (sizes and alignments of the scalar typedefs and of every public struct, as the C
+    compiler sees them for the flags build.rs passes) is compiled and EXECUTED again with the macro defined to each integer literal
+    it is compared with in the headers (and to 1), and its output is compared with the host's: the binding fixes `real` = f64 / f32
+    per feature set and mirrors the structs once, so a header that silently changes a type for some target leaves every Rust mirror
+    wrong there (seeded change C20-J: a_real defaults to float when __ARM_FP / __riscv_flen say the FPU is single-precision only).
+    A simulated macro under which the headers no longer compile on this host (_MSC_VER, _WIN32 ...) is skipped and counted."""
+    REPO = ctx['REPO']
+    inc_dir = os.path.join(REPO, 'include', 'a')
+    headers = sorted(h for h in os.listdir(inc_dir) if h.endswith('.h'))
+    text = {h: open(os.path.join(inc_dir, h), errors='replace').read().replace('\\\n', ' ') for h in headers}
+    host = set(re.findall(r'#define (\w+)', sh(['gcc', '-dM', '-E', '-x', 'c', '/dev/null']).stdout))
+    cand = {}
+    for h in headers:
+        for ln in text[h].splitlines():
+            m = re.match(r'\s*#\s*(if|elif|ifdef|ifndef)\b(.*)', ln)
+            if not m:
+                continue
+            rest = re.sub(r'__has_\w+\s*\([^)]*\)', ' ', strip_comments(m.group(2)))
+            lits = set(int(x, 0) for x in re.findall(r'\b(0[xX][0-9a-fA-F]+|\d+)[uUlL]*\b', rest))
+            for name in set(re.findall(r'\b(__\w+|_[A-Z]\w*)\b', rest)):
+                if name in host or name.startswith('__has_') or name in ('__cplusplus', '__STDC_VERSION__', '__STDC__', '__FILE__', '__LINE__', '__VA_ARGS__', '_Pragma'):
+                    continue
+                cand.setdefault(name, set()).update(lits | {1})
+    odir = os.path.join(outdir, 'simulated-targets')
+    os.makedirs(odir, exist_ok=True)
+    alltext = ''.join(text.values())
+    structs = sorted(set(re.findall(r'\bstruct\s+(a_\w+)\s*\{', alltext)))
+    scalars = ['a_real', 'a_size', 'a_diff', 'a_int', 'a_uint', 'a_bool', 'a_byte', 'a_u8', 'a_u16', 'a_u32', 'a_u64', 'a_i8', 'a_i16', 'a_i32', 'a_i64', 'a_f32', 'a_f64', 'a_vptr', 'a_str', 'a_imax', 'a_umax', 'a_iptr', 'a_uptr']
+    scalars = [t for t in scalars if re.search(r'\b%s\b' % t, text.get('a.h', ''))]
+    src = os.path.join(odir, 'layout.c')
+    with open(src, 'w') as f:
+        f.write('#include <stdio.h>\n' + ''.join('#include "a/%s"\n' % h for h in headers))
+        f.write('int main(void)\n{\n')
+        for t in scalars:
+            f.write('    printf("%s %%zu %%zu\\n", sizeof(%s), _Alignof(%s));\n' % (t, t, t))
+        for t in structs:
+            f.write('    printf("struct %s %%zu %%zu\\n", sizeof(struct %s), _Alignof(struct %s));\n' % (t, t, t))
+        f.write('    return 0;\n}\n')
+    brs = strip_comments(open(brs_path).read()) if os.path.exists(brs_path) else ''
+    feats = []
+    for float_on, tag, want in ((False, 'f64', 8), (True, 'f32', 4)):
+        defs = []
+        for m in re.finditer(r'((?:#\[cfg\([^\]]*\)\]\s*)*)make\.define\(\s*"(\w+)"\s*,\s*(?:Some\()?"?(\w+)"?\)?\s*\)', brs):
+            attrs = m.group(1)
+            on = ('feature = "float"' in attrs and 'not(' not in attrs) if 'float' in attrs else True
+            if 'not(feature = "float")' in attrs:
+                on = not float_on
+            elif 'feature = "float"' in attrs:
+                on = float_on
+            if on and m.group(2).startswith('A_'):
+                defs.append('-D%s=%s' % (m.group(2), m.group(3)))
+        feats.append((tag, want, defs))
+
+    def probe(tag, defs, extra, name):
+        exe = os.path.join(odir, 'layout-%s-%s' % (tag, name))
+        r = sh(['gcc', '-w', '-O0', '-std=gnu11', '-I' + os.path.join(REPO, 'include'), src, '-o', exe] + defs + extra)
+        if r.returncode:
+            return None
+        rr = sh([exe])
+        return rr.stdout if rr.returncode == 0 else None
+    stats['simulated_targets'] = dict(macros=sorted(cand), probes=0, not_compilable=0)
+    for tag, want, defs in feats:
+        base = probe(tag, defs, [], 'host')
+        if base is None:
+            raise ctx['Inconclusive']('layout probe does not compile/run for the %s feature set with the flags of build.rs (%s)' % (tag, ' '.join(defs)))
+        m = re.search(r'^a_real (\d+)', base, flags=re.M)
+        stats['evaluations'] += 1
+        if not m or int(m.group(1)) != want:
+            viols.append(dict(key='abi/build.rs/c-real-width-differs-from-binding', config=tag,
+                              msg='compiled with the flags build.rs passes for this feature set (%s) sizeof(a_real) is %s; the binding declares real as f%d' % (' '.join(defs) or 'none', m.group(1) if m else '?', want * 8)))
+        jobs = [(name, v) for name in sorted(cand) for v in sorted(cand[name])[:6]]
+
+        def one(job):
+            name, v = job
+            return job, probe(tag, defs, ['-D%s=%d' % (name, v)], '%s-%d' % (name, v))
+        from concurrent.futures import ThreadPoolExecutor
+        with ThreadPoolExecutor(max_workers=8) as ex:
+            res = list(ex.map(one, jobs))
+        for (name, v), out in res:
+            stats['simulated_targets']['probes'] += 1
+            if out is None:
+                stats['simulated_targets']['not_compilable'] += 1
+                continue
+            stats['evaluations'] += 1
+            stats['distinct'].add(('simtarget', name, v, tag))
+            if out != base:
+                diff = [(a, b) for a, b in zip(base.splitlines(), out.splitlines()) if a != b]
+                # the binding's usize / isize / c_int / c_uint / pointers change with the target too: a typedef of that kind that the headers
+                # choose differently for the simulated target is not a mismatch this host can judge, and struct sizes then follow it
+                exempt = ('a_size', 'a_diff', 'a_int', 'a_uint', 'a_vptr', 'a_str', 'a_iptr', 'a_uptr', 'a_imax', 'a_umax')
+                if any(a.split(' ')[0] in exempt for a, _ in diff):
+                    stats['simulated_targets']['target_width_typedef_changed_not_judged'] = stats['simulated_targets'].get('target_width_typedef_changed_not_judged', 0) + 1
+                    diff = [(a, b) for a, b in diff if not a.startswith('struct ') and a.split(' ')[0] not in exempt]
+                    if not diff:
+                        continue
+                item = diff[0][0].rsplit(' ', 2)[0].replace(' ', '-') if diff else 'output'
+                viols.append(dict(key='abi/simulated-target/%s/%s/size-or-alignment-differs-from-this-host' % (name, item), config=tag,
+                                  msg='with the compiler predefine %s=%d (a target property the headers consult; flags of build.rs for %s: %s) %d of %d sizes/alignments differ from the ones the Rust mirrors were written for, e.g. "%s" becomes "%s"'
+                                      % (name, v, tag, ' '.join(defs) or 'none', len(diff), len(base.splitlines()), diff[0][0] if diff else '', diff[0][1] if diff else '')))
+
+
 def one_width(real, tag, outdir, ctx, viols, stats, samples, tier='quick', seed=1, creal=None):
     REPO, VERIF = ctx['REPO'], ctx['VERIF']
     Inc = ctx['Inconclusive']
@@ -1078,6 +1182,7 @@ def run(prop, tier, seed, outdir, replay, ctx):
     brs = parse_build_rs(os.path.join(ctx['REPO'], 'build.rs'))
     stats['build_rs'] = brs
     try:
+        simulated_targets(ctx, outdir, viols, stats, os.path.join(ctx['REPO'], 'build.rs'))
         for real, tag in widths:
             creal = real
             if brs is not None:
@@ -1111,7 +1216,7 @@ def run(prop, tier, seed, outdir, replay, ctx):
                     unexercised_wrappers=sorted(stats['unexercised_wrappers']), histories_per_struct_and_width=NHIST[tier],
                     wrapper_twin_calls={t: dict(sorted(d['counts'].items())) for t, d in stats['twin'].items()},
                     wrapper_twin_counterpart={n: c for d in stats['twin'].values() for n, c in sorted(d['cfn'].items())},
-                    wrapper_histories={t: d['histories'] for t, d in stats['twin'].items()}, sanitizer_reports=sum(1 for v in viols if 'sanitizer' in v['key']))
+                    wrapper_histories={t: d['histories'] for t, d in stats['twin'].items()}, simulated_target_predefines=stats.get('simulated_targets'), sanitizer_reports=sum(1 for v in viols if 'sanitizer' in v['key']))
     if replay:
         rp = json.load(open(replay))
         hit = [v for v in viols if v['key'] == rp['key']]
